@@ -725,4 +725,12 @@ Section Inv.
       + apply (zfind_keys_eq _ _ _ (wi_bt_keys _ HI)) in Ebt. congruence.
     - apply (wi_ex_prof _ HI).
   Qed.
+
+  (* an idle worker (nothing placed, no profile) reports zero allocated quantity for every resource *)
+  Theorem winv_idle_zero : forall w r, WInv w -> w_placed w = [] -> w_avail_prof w = [] -> w_pend_prof w = [] ->
+    r_allocated_q (w_res w) r = 0 /\ r_available (w_res w) r = r_total_q (w_res w) r.
+  Proof.
+    intros w r HI Hp Ha Hq. destruct (winv_empty_full w HI Hp Ha Hq) as [_ E].
+    unfold r_allocated_q, r_available, r_total_q. rewrite E. split; lia.
+  Qed.
 End Inv.
